@@ -1620,3 +1620,27 @@ M("c05q", "fire", ["C05"], "0.3 treeinfo: the source swap happens for every tree
 
 M("c05r", "fire", ["C05"], "0.3 rpm manifest: sigkey of the binary package read from the wrong key",
   (RP, '''rpm_data["path"], rpm_data["sigkey"], category, srpm_nevra)''', '''rpm_data["path"], rpm_data["path"], category, srpm_nevra)'''))
+
+M("c04m", "fire", ["C04"], "is_layered is probed with section and option swapped: never found, a layered release is read back as not layered",
+  (TI, '''    def deserialize_1_0(self, parser):
+        self.name = parser.get(self._section, "name")
+        self.version = parser.get(self._section, "version")
+        if parser.has_option(self._section, "short"):
+            self.short = parser.get(self._section, "short")
+        else:
+            self.short = self.name
+        if parser.has_option(self._section, "is_layered"):''', '''    def deserialize_1_0(self, parser):
+        self.name = parser.get(self._section, "name")
+        self.version = parser.get(self._section, "version")
+        if parser.has_option(self._section, "short"):
+            self.short = parser.get(self._section, "short")
+        else:
+            self.short = self.name
+        if parser.has_option("is_layered", self._section):'''))
+
+M("c11o", "fire", ["C11"], "get_variants: the recursion result is thrown away",
+  (CI, '''                result.extend(variant.get_variants(arch=arch, types=[i for i in types if i != "self"], recursive=True))''',
+       '''                variant.get_variants(arch=arch, types=[i for i in types if i != "self"], recursive=True)'''))
+
+M("c11p", "fire", ["C11"], "get_variants: only the pseudo-type 'self' is passed down",
+  (CI, '''types=[i for i in types if i != "self"], recursive=True))''', '''types=[i for i in types if i == "self"], recursive=True))'''))
